@@ -16,6 +16,8 @@ pub mod http_languages;
 pub mod http_process;
 pub mod packet_parser;
 pub mod raw_filter;
+#[cfg(feature = "verif-hooks")]
+pub mod verif_hooks;
 
 pub mod packet_hash;
 
